@@ -26,7 +26,8 @@ LEAVES = ['role:admin', 'role:member', 'role:reader', 'is_admin:True',
           'system_scope:all', 'system:all', "'p1':%(project_id)s",
           'rule:svc:owner', 'rule:helper', 'rule:undefined', '@', '!',
           'user_id:%(target.user.id)s', 'project.id:%(project_id)s',
-          'user.id:%(user_id)s', 'domain_id:%(domain_id)s']
+          'user.id:%(user_id)s', 'domain_id:%(domain_id)s',
+          'None:%(target.user.id)s', 'None:%(project_id)s']
 
 
 class _Json:
@@ -101,6 +102,9 @@ def run_checker(ctx, seed, index, with_default, targetfile):
             file_target = {}
         elif targetfile == 4:
             file_target = {'target': {'project': {}, 'user': {}}}
+        elif targetfile == 5:
+            file_target = {'project_id': None, 'user_id': 'u1',
+                           'target': {'user': {'id': None, 'n': 0}}}
         elif targetfile:
             file_target = {'project_id': 'p1' if targetfile == 1 else 'p2',
                            'user_id': 'u1',
@@ -188,7 +192,7 @@ def cubes_checker(tier, seed):
     out = []
     for i in range(n):
         out.append({'seed': seed, 'index': i, 'with_default': i % 2 == 0,
-                    'targetfile': i % 5})
+                    'targetfile': i % 6})
     return out
 
 
